@@ -1,7 +1,7 @@
 (** Protocol operations for C04 (see Lib/Val.v). *)
 From Coq Require Import ZArith List Bool String.
 From Low Require Import Lib.MachInt Lib.Bits Lib.BitSeq Lib.Lex Lib.Bytes Lib.Val
-  Spec.Bmtree Spec.AllPathsSpec Model.BmtreePath Model.BmtreeIndex Model.BmtreeAllPaths.
+  Spec.Bmtree Spec.AllPathsSpec Model.BmtreePath Model.BmtreeIndex Model.BmtreeAllPaths Model.BitmapOf.
 Import ListNotations.
 Open Scope string_scope.
 Open Scope Z_scope.
@@ -10,35 +10,112 @@ Definition c04_h (T : Z) : nat := Z.to_nat (Height T).
 Definition c04_T_ok (T : Z) : bool := (1 <=? T) && (T <? 2 ^ 31).
 Definition c04_u64 (x : Z) : bool := (0 <=? x) && (x <? 2 ^ 64).
 
+(** a node as a 0/1 list *)
+Definition c04_node (v : val) : option node :=
+  match as_zs v with
+  | Some l => if forallb (fun z => (z =? 0) || (z =? 1)) l then Some (map (fun z => z =? 1) l) else None
+  | None => None
+  end.
+Definition c04_nodes (v : val) : option (list node) :=
+  match v with VL l => opt_all (map c04_node l) | _ => None end.
+
+(** both sides build the path word with NewPath (Go: bmtree.NewPath(bits left-aligned in h, len, h)) *)
+Definition c04_word (T : Z) (q : node) : Z :=
+  let h := Height T in NewPath (valL (Z.to_nat h) q) (zlen q) h.
+
+(** S is a sub-list of [stored_nodes T h]: every node is on a stored level, not deeper than h,
+    and the list is strictly ascending in pre-order *)
+Fixpoint c04_sorted (l : list node) : bool :=
+  match l with
+  | a :: ((b :: _) as t) => pre_ltb a b && c04_sorted t
+  | _ => true
+  end.
+Definition c04_sub_ok (T : Z) (ss : list node) : bool :=
+  forallb (fun q => (zlen q <=? Height T) && stored T q) ss && c04_sorted ss.
+
+(** encode the nodes of S as the bitmap Of(map PathToIndex S), then Decode it *)
+Definition c04_roundtrip (T : Z) (ss : list node) : option (list Z) :=
+  match opt_all (map (fun q => PathToIndex T (c04_word T q)) ss) with
+  | None => None
+  | Some idxs =>
+      match Of idxs None with
+      | None => None
+      | Some bm => Decode T bm
+      end
+  end.
+
+(** the correspondence domain (the harness refuses anything else, so that a shrinking step cannot
+    ask either side for 2^30 words): at most 2^13 search values in the window, Decode on heights <= 14 *)
+Definition c04_win_ok (T f t : Z) : bool :=
+  let h := Height T in
+  let t0 := shr64 t 32 + 1 in
+  let tt := if t0 >? 2 ^ h then 2 ^ h else t0 in
+  tt - shr64 f 32 <=? 8192.
+Definition c04_dec_ok (T : Z) : bool := Height T <=? 14.
+
+Definition c04_run_allpaths (a : list val) : val :=
+  match a with
+  | [T; f; t] => match as_z T, as_z f, as_z t with
+      | Some T, Some f, Some t =>
+          if c04_T_ok T && c04_u64 f && c04_u64 t && c04_win_ok T f t then
+            match AllPaths T f t with Some l => vzs l | None => VPanic end
+          else VBad
+      | _, _, _ => VBad end
+  | _ => VBad end.
+Definition c04_spec_allpaths (a : list val) : val :=
+  match a with
+  | [T; f; t] => match as_z T, as_z f, as_z t with
+      | Some T, Some f, Some t => vzs (check_allpaths T (c04_h T) f t)
+      | _, _, _ => VBad end
+  | _ => VBad end.
+
+Definition c04_run_decode (a : list val) : val :=
+  match a with
+  | [T; bm] => match as_z T, as_zs bm with
+      | Some T, Some bm =>
+          if c04_T_ok T && c04_dec_ok T && words_okb bm then
+            match Decode T bm with Some l => vzs l | None => VPanic end
+          else VBad
+      | _, _ => VBad end
+  | _ => VBad end.
+Definition c04_spec_decode (a : list val) : val :=
+  match a with
+  | [T; bm] => match as_z T, as_zs bm with
+      | Some T, Some bm => vzs (spec_decode T (c04_h T) bm)
+      | _, _ => VBad end
+  | _ => VBad end.
+
+(** "held" variants: two calls, then both results are read (a result that aliases a reused
+    buffer is overwritten by the second call) *)
+Definition c04_two (f : list val -> val) (a : list val) : val :=
+  match a with
+  | [VL a1; VL a2] =>
+      match f a1, f a2 with
+      | VBad, _ | _, VBad => VBad
+      | r1, r2 => VL [r1; r2]
+      end
+  | _ => VBad end.
+
 Definition ops_C04 : list opdef := [
   (* AllPaths(T, from, to): the returned slice *)
-  {| op_name := "bmtree.AllPaths";
-     op_run := fun a => match a with
-       | [T; f; t] => match as_z T, as_z f, as_z t with
-           | Some T, Some f, Some t =>
-               if c04_T_ok T && c04_u64 f && c04_u64 t then
-                 match AllPaths T f t with Some l => vzs l | None => VPanic end
-               else VBad
-           | _, _, _ => VBad end
-       | _ => VBad end;
-     op_spec := fun_spec (fun a => match a with
-       | [T; f; t] => match as_z T, as_z f, as_z t with
-           | Some T, Some f, Some t => vzs (check_allpaths T (c04_h T) f t)
-           | _, _, _ => VBad end
-       | _ => VBad end) |};
+  {| op_name := "bmtree.AllPaths"; op_run := c04_run_allpaths; op_spec := fun_spec c04_spec_allpaths |};
+  {| op_name := "bmtree.AllPaths/held"; op_run := c04_two c04_run_allpaths; op_spec := fun_spec (c04_two c04_spec_allpaths) |};
   (* Decode(T, bm): the returned slice *)
-  {| op_name := "bmtree.Decode";
+  {| op_name := "bmtree.Decode"; op_run := c04_run_decode; op_spec := fun_spec c04_spec_decode |};
+  {| op_name := "bmtree.Decode/held"; op_run := c04_two c04_run_decode; op_spec := fun_spec (c04_two c04_spec_decode) |};
+  (* Decode(T, Of(map PathToIndex S)) for a sub-list S of the stored nodes: the words of S *)
+  {| op_name := "bmtree.Decode/roundtrip";
      op_run := fun a => match a with
-       | [T; bm] => match as_z T, as_zs bm with
-           | Some T, Some bm =>
-               if c04_T_ok T && words_okb bm then
-                 match Decode T bm with Some l => vzs l | None => VPanic end
+       | [T; ss] => match as_z T, c04_nodes ss with
+           | Some T, Some ss =>
+               if c04_T_ok T && c04_dec_ok T && c04_sub_ok T ss then
+                 match c04_roundtrip T ss with Some l => vzs l | None => VPanic end
                else VBad
            | _, _ => VBad end
        | _ => VBad end;
      op_spec := fun_spec (fun a => match a with
-       | [T; bm] => match as_z T, as_zs bm with
-           | Some T, Some bm => vzs (spec_decode T (c04_h T) bm)
+       | [T; ss] => match as_z T, c04_nodes ss with
+           | Some T, Some ss => vzs (map (enc (c04_h T)) ss)
            | _, _ => VBad end
        | _ => VBad end) |}
 ].
